@@ -53,6 +53,7 @@ const (
 	ErrFuncSecondArgInt        = "second argument for function '%s' on type '%s' must be an INTEGER"
 	ErrFuncSecondArgStr        = "second argument for function '%s' on type '%s' must be a STRING"
 	ErrFuncFirstArgNotNegative = "first argument for function '%s' on type '%s' must not be negative"
+	ErrRepeatTooLong           = "the repeated string would be longer than %d bytes"
 	ErrFuncMaxArgs             = "function '%s' on type '%s' accepts a maximum of '%d' arguments"
 
 	// Template errors
